@@ -165,8 +165,13 @@ def part_generate(ctx, res):
     """TLC: enumerate tables, check the statement's invariants, emit vectors."""
     groups = {}
     if ctx.quick:
-        groups["quick"] = ctx.tlc("Rewrites", "Rewrites.quick.cfg", workers=5, timeout=900, heap="4g")
-        order = ["quick"]
+        def genq(name, cfg, workers):
+            def f():
+                groups[name] = ctx.tlc("Rewrites", cfg, workers=workers, timeout=900, heap="4g")
+            return f
+        # (chain: the long-chain family, chains of up to 33 links into cycles, addresses or nothing)
+        run_parallel([genq("quick", "Rewrites.quick.cfg", 5), genq("chain", "Rewrites.chain.cfg", 2)])
+        order = ["quick", "chain"]
     else:
         def gen(name, cfg):
             def f():
@@ -181,8 +186,9 @@ def part_generate(ctx, res):
             ctx.tlc("Rewrites", subst_cfg(ctx, "Rewrites.perm.cfg", "perm_shard.cfg", Shard=shard), workers=2,
                     timeout=1500, heap="3g")
             res["perm_shard"] = shard
-        run_parallel([gen("full", "Rewrites.full.cfg"), gen("three", "Rewrites.three.cfg"), perms])
-        order = ["full", "three"]
+        run_parallel([gen("full", "Rewrites.full.cfg"), gen("three", "Rewrites.three.cfg"),
+                      gen("chain", "Rewrites.chain.cfg"), perms])
+        order = ["full", "three", "chain"]
     sets = []
     witnessed, clauses = set(), []
     for name in order:
@@ -212,7 +218,11 @@ def part_live(ctx, res):
         raise vlib.Inconclusive("vacuous: actions never taken in %s: %s" % (cfg, dead))
     if "Checking temporal properties" not in r["out"] and "temporal properties" not in r["out"]:
         raise vlib.Inconclusive("TLC did not check the temporal property in %s" % cfg)
-    res["live"] = {"cfg": cfg, "states": r["distinct"], "actions": acts}
+    # ... and on the long-chain family.
+    rc = ctx.tlc("Rewrites", "Rewrites.chainlive.cfg", workers=2, timeout=900, heap="3g")
+    if "temporal properties" not in rc["out"]:
+        raise vlib.Inconclusive("TLC did not check the temporal property in Rewrites.chainlive.cfg")
+    res["live"] = {"cfg": cfg, "states": r["distinct"], "actions": acts, "long_chain_states": rc["distinct"]}
 
 
 def part_replay(ctx, res, tally):
